@@ -269,7 +269,7 @@ extern "C" void vp_enum(int tier, uint64_t seed, uint32_t shard, uint32_t nshard
                 // bitwise: lattice pairs (sampled diagonal bands; the operations are bit-sliced)
                 size_t fill = 0;
                 for (size_t i = 0; i < n; ++i)
-                    for (size_t j = 0; j < n; j += (n > 300 ? 7 : 1)) {
+                    for (size_t j = 0; j < n; j += (n > 20000 ? n / 48 : n > 300 ? 7 : 1)) {       // the exhaustive 16-bit value list of the thorough tier: 48 partners per value
                         c.v[0][fill] = L[i]; c.v[1][fill] = L[(j + i) % n];
                         if (++fill == W) { emit(&c, ctx); fill = 0; }
                     }
